@@ -332,23 +332,35 @@ def _run_prefix(arg):
     d.boot()
     taken = []
     points = []
+    visited = set()
     i = 0
     while not d.done() and i < horizon:
         en = d.enabled()
         if not en:
             break
+        flip = False
         if i < len(prefix):
             idx = prefix[i]
-            if idx >= len(en):
+            if idx == len(en) and hasattr(d, "races_last_step"):
+                flip = True         # the default choice, with the first simultaneous-completion race in it resolved the other way
+            elif idx >= len(en):
                 return ("DIVERGED", prefix, i, len(en))
         else:
             idx = 0
             points.append((i, [c for (_, c) in en]))
-        taken.append(en[idx][0])
-        d.step(en[idx][0])
+        choice = ["~", en[0][0]] if flip else en[idx][0]
+        taken.append(choice)
+        d.step(choice)
+        if hasattr(d, "races_last_step"):
+            if flip and not d.races_last_step():
+                return ("DIVERGED", prefix, i, -1)
+            if i >= len(prefix) and d.races_last_step():
+                points[-1][1].append(1)
+        if hasattr(d, "state_key"):
+            visited.add(fp_hash(d.state_key()))
         i += 1
     d.finish()
-    out = ("OK", prefix, taken, points, list(d.violations), dict(d.stats), d.outcome())
+    out = ("OK", prefix, taken, points, list(d.violations), dict(d.stats), d.outcome(), visited)
     d.close()
     return out
 
@@ -363,6 +375,7 @@ class DbsResult:
         self.samples = []
         self.capped = False
         self.steps = 0
+        self.state_set = set()
 
 
 def dbs(factory, bound, horizon, workers=None, max_executions=None, time_budget=None):
@@ -384,7 +397,8 @@ def dbs(factory, bound, horizon, workers=None, max_executions=None, time_budget=
                     if r[0] == "DIVERGED":
                         from mc.runner import HarnessError
                         raise HarnessError("replay of prefix %r diverged at %d (%d enabled)" % (r[1], r[2], r[3]))
-                    _, prefix, taken, points, viol, stats, outcome = r
+                    _, prefix, taken, points, viol, stats, outcome, visited = r
+                    res.state_set |= visited
                     res.executions += 1
                     res.steps += len(taken)
                     used = costs[tuple(prefix)]
